@@ -1244,6 +1244,10 @@ class Parser:
                 f"Error encountered by YAML parser in {self.current_file}"
             ) from e
 
+        if data is None:
+            # empty file (or nothing but comments): nothing to define
+            data = {}
+
         valid_sections = (
             "metadata",
             "compiler_options",
